@@ -160,6 +160,21 @@ def judge(ctx, q, stats, info):
                     ctx.violation("extract:order-outer-after-inner", f"outer {outer!r} comes after inner {inner!r} in {got_md!r:.300} | in: {witness['query'][:300]}", witness)
                     break
             ctx.count("obligation:extract-checked")
+            # the dictionaries handed back are the caller's: no two are one object, and editing them leaves a later extraction alone
+            if len({id(d) for d in got_md if isinstance(d, dict)}) != len([d for d in got_md if isinstance(d, dict)]):
+                ctx.violation("extract:one-dictionary-object-returned-twice", f"{got_md!r:.200} | in: {witness['query'][:300]}", witness)
+            for d in got_md:
+                if isinstance(d, dict):
+                    d["edited-by-the-caller"] = True
+                    for k in list(d):
+                        if isinstance(d[k], list):
+                            d[k].append("edited")
+            try:
+                _, again = extract_metadata(astx.clone(q))
+                if sorted(map(canon, again)) != sorted(map(canon, exp_md)):
+                    ctx.violation("extract:earlier-result-edited-changes-later-result", f"after the caller edited the returned dictionaries a fresh extraction gives {again!r:.200}, expected {exp_md!r:.200}", witness)
+            except Exception as e:
+                ctx.violation(f"extract:exc-second:{type(e).__name__}", str(e)[:200], witness)
     # --- remove_empty_metadata
     arg = astx.clone(q)
     if stats.get("n", 0) and ctx.rnd.random() < 0.5:
